@@ -1,5 +1,8 @@
 // Native replay for C09 on the real dense eigen-solvers: exact-zero / exact-conjugate conventions, backward error on small
 // structured matrices (integer, graded, zero sub-diagonals, scaled), zero matrix, failure => exception.
+#include <stdexcept>
+struct EigenAssert : std::logic_error { EigenAssert(const char* s) : std::logic_error(s) {} };
+#define eigen_assert(x) do { if (!(x)) throw EigenAssert(#x); } while (0)
 #include <Eigen/Core>
 #include <cstdio>
 #include <cmath>
@@ -10,6 +13,20 @@ using namespace Spectra;
 static int bad = 0;
 static void fail(const char* w, int n, int p, double s) { if (!bad++) printf("%s (n=%d pattern=%d scale=%g)\n", w, n, p, s); }
 int main() {
+  // the zero matrix (every size): trivially decomposable, must give finite results - or at least never NaN / never a failure report
+  for (int n = 1; n <= 6; n++) {
+    Eigen::MatrixXd Z0 = Eigen::MatrixXd::Zero(n, n);
+    try { UpperHessenbergEigen<double> he(Z0); Eigen::VectorXcd ev = he.eigenvalues(); Eigen::MatrixXcd V = he.eigenvectors();
+      bool fin = true; for (int i = 0; i < n; i++) if (!(ev[i].real() == 0 && ev[i].imag() == 0)) fin = false;
+      if (!fin) fail("UpperHessenbergEigen of the ZERO matrix returns non-zero / NaN eigenvalues (division by max|H_ij| = 0)", n, -1, 0.0);
+      else if (!((V.adjoint() * V - Eigen::MatrixXcd::Identity(n, n)).norm() <= 1e-12)) fail("UpperHessenbergEigen of the zero matrix: eigenvectors not unit-norm / NaN", n, -1, 0.0);
+    } catch (const std::exception&) { fail("UpperHessenbergEigen of the ZERO matrix throws (division by max|H_ij| = 0 turns the input into NaN)", n, -1, 0.0); }
+    try { TridiagEigen<double> te(Z0); if (!(te.eigenvalues().norm() == 0) || !((te.eigenvectors().transpose() * te.eigenvectors() - Eigen::MatrixXd::Identity(n, n)).norm() <= 1e-12)) fail("TridiagEigen of the zero matrix: wrong result", n, -1, 0.0); }
+    catch (const EigenAssert& e) { printf("  [%s]\n", e.what()); fail("TridiagEigen: an Eigen precondition is violated inside compute() (maxCoeff of the EMPTY sub-diagonal of a 1x1 matrix)", n, -1, 0.0); }
+    catch (const std::exception&) { fail("TridiagEigen of the zero matrix throws", n, -1, 0.0); }
+    try { UpperHessenbergSchur<double> sc(Z0); if (!(sc.matrix_T().norm() == 0) || !((sc.matrix_U().transpose() * sc.matrix_U() - Eigen::MatrixXd::Identity(n, n)).norm() <= 1e-12)) fail("Schur of the zero matrix: wrong result", n, -1, 0.0); }
+    catch (const std::exception&) { fail("Schur of the zero matrix throws", n, -1, 0.0); }
+  }
   const double scales[] = {1.0, 1e-12, 1e-40, 1e-100, 1e100, 1e12};
   for (int n = 2; n <= 12; n++) for (int p = 0; p < 4; p++) for (double sc : scales) {
     typedef Eigen::MatrixXd M; typedef Eigen::Matrix<long double, -1, -1> LM;
